@@ -77,7 +77,20 @@ func (ts *TarsServer) Listen() error {
 func (ts *TarsServer) Shutdown(ctx context.Context) error {
 	// step 1: close listeners, notify client reconnect
 	atomic.StoreInt32(&ts.isClosed, 1)
-	ts.handle.OnShutdown()
+	// OnShutdown and CloseIdles write the close message to the connections.  Such a write waits behind a
+	// response that is being written to a client that is slow to read it (writes to one connection are
+	// serialized), for as long as that client pleases: they run in a goroutine of their own, so that the
+	// context bounds Shutdown all the same.
+	done := make(chan bool, 1)
+	go func() {
+		ts.handle.OnShutdown()
+		done <- false
+	}()
+	select {
+	case <-ctx.Done():
+		return nil
+	case <-done:
+	}
 
 	// step 2: wait and close idle connections
 	watchInterval := time.Millisecond * 500
@@ -88,8 +101,14 @@ func (ts *TarsServer) Shutdown(ctx context.Context) error {
 		case <-ctx.Done():
 			return nil
 		case <-tk.C:
-			if ts.handle.CloseIdles(2) {
+			go func() { done <- ts.handle.CloseIdles(2) }()
+			select {
+			case <-ctx.Done():
 				return nil
+			case allClosed := <-done:
+				if allClosed {
+					return nil
+				}
 			}
 		}
 	}
